@@ -34,7 +34,8 @@ def fastDigits (n : Nat) : Nat :=
   if n < 10 then 1 else
   let b := Nat.log2 n + 1
   let est := b * 1233 / 4096
-  fastDigitsAux 4 n (max est 1)
+  -- 1233/4096 undershoots log10 2 by 4.6e-6, so the estimate can fall b/200000 + 2 short
+  fastDigitsAux (b / 100000 + 4) n (max est 1)
 
 def floorDiv (a : Int) (p : Nat) : Int := Int.fdiv a p
 def ceilDiv (a : Int) (p : Nat) : Int := -(Int.fdiv (-a) p)
